@@ -145,6 +145,7 @@ func genBundle(r *R, opts FlatOpts, plus bool, thorough bool, force map[string]b
 	flag("multiReferrers", 50)
 	flag("auxOnlyViaShared", 12)
 	flag("altSpelling", 25)
+	flag("rootNoDefs", 10)
 	flag("security", 45)
 	flag("opMedia", 35)
 	flag("paramEnums", 35)
@@ -167,6 +168,10 @@ func genBundle(r *R, opts FlatOpts, plus bool, thorough bool, force map[string]b
 	}
 	if naux == 0 {
 		g.feat["auxOnlyViaShared"] = false
+		g.feat["rootNoDefs"] = false
+	}
+	if g.on("rootNoDefs") {
+		g.feat["caseSiblings"], g.feat["anonPtr"], g.feat["anonPtrShared"], g.feat["multiReferrers"], g.feat["auxOnlyViaShared"] = false, false, false, false, false
 	}
 	if g.on("auxOnlyViaShared") {
 		// the root holds no schema $ref and no path-item $ref of its own: auxiliary schemas are reached only through
@@ -343,6 +348,9 @@ func (g *bundleGen) chooseNames() {
 	for di, d := range g.docs {
 		used := map[string]bool{}
 		n := g.r.Range(1, g.maxDefs)
+		if d.isRoot && g.on("rootNoDefs") && len(g.docs) > 1 {
+			n = 0 // the root document has no "definitions" section at all; auxiliary schemas are referred to from operations
+		}
 		for i := 0; i < n; i++ {
 			var name string
 			for try := 0; ; try++ {
@@ -373,6 +381,9 @@ func (g *bundleGen) chooseNames() {
 			if src == ad || len(src.defNames) == 0 {
 				src = g.docs[0]
 			}
+			if len(src.defNames) == 0 {
+				continue
+			}
 			base := src.defNames[g.r.Intn(len(src.defNames))]
 			name := base
 			switch g.r.Intn(3) {
@@ -388,7 +399,7 @@ func (g *bundleGen) chooseNames() {
 			globalNorm[normName(name)]++
 		}
 	}
-	if g.on("collideGenerated") {
+	if g.on("collideGenerated") && len(g.docs[0].defNames) > 0 {
 		// names Flatten would generate itself: <def><Prop>, <x>OAIGen, <x>OAIGen1
 		rd := g.docs[0]
 		if len(rd.defNames) > 0 {
@@ -945,6 +956,15 @@ func (g *bundleGen) ensureAuxUsed() {
 		for i, n := range want {
 			holder := fmt.Sprintf("uses%s%d", strings.TrimSuffix(path.Base(ad.path), ".json"), i)
 			ref := obj{"$ref": g.refToAlt(rd, ad, "definitions", n)}
+			if g.on("rootNoDefs") {
+				short := strings.TrimSuffix(path.Base(ad.path), ".json")
+				if g.r.P(50) {
+					g.addRootOp(fmt.Sprintf("/use%s%d", short, i), ref)
+				} else {
+					g.addRootOp(fmt.Sprintf("/use%s%d", short, i), obj{"type": "array", "items": ref})
+				}
+				continue
+			}
 			switch g.r.Intn(4) {
 			case 0:
 				rd.defs[holder] = obj{"type": "object", "properties": obj{"ext": ref}}
@@ -1043,6 +1063,12 @@ func (g *bundleGen) plantCaseSiblings() {
 		base := g.r.Pick(cands)
 		g.addRootDef(base, inner("1"))
 		g.addRootDef(swapCase(base), inner("2"))
+		if g.r.P(40) {
+			// two existing definitions that differ only by case and both collide with the name generated for
+			// <base>.detail
+			g.addRootDef(upperFirst(base)+"Detail", obj{"type": "string"})
+			g.addRootDef(strings.ToLower(base)+"detail", obj{"type": "integer"})
+		}
 		if g.r.P(40) {
 			g.addRootOp("/case"+base, obj{"$ref": mkRef("", "definitions", base)})
 		}
